@@ -2545,7 +2545,10 @@ def pb_post(p):
         else:
             raise Unsupported('the permutation dict is not built from rng.permuted(feasible_values)')
         # numpy scalar types: np.float64 is a float, np.str_ is a str, np.int64 is NOT an int (ParameterValue accepts str|int|float|bool)
-        vals_from = [q for q in (rm.xs.parts if isinstance(rm.xs, X.ZipList) else []) if getattr(q, 'source', None) is F]
+        src_list = rm.xs
+        while not isinstance(src_list, X.ZipList) and hasattr(src_list, 'xs'):
+            src_list = src_list.xs              # a list / generator of pairs built from the zip
+        vals_from = [q for q in (src_list.parts if isinstance(src_list, X.ZipList) else []) if getattr(q, 'source', None) is F]
         if vals_from and getattr(vals_from[-1], 'python_scalars', False):
             types.append(z3.BoolVal(True))          # ndarray.tolist(): python scalars of the feasible values' own types
         else:
